@@ -5,9 +5,19 @@ pub mod task {
     pub use vexec::shim::{spawn, yield_now, JoinError, JoinHandle};
 }
 pub mod runtime {
+    #[derive(Clone, Copy, Debug, PartialEq, Eq)]
+    #[non_exhaustive]
+    pub enum RuntimeFlavor {
+        CurrentThread,
+        MultiThread,
+    }
     #[derive(Clone, Debug)]
     pub struct Handle;
     impl Handle {
+        /// an environment answer the explorer owns: every task-spawning program is explored under both answers
+        pub fn runtime_flavor(&self) -> RuntimeFlavor {
+            if vexec::FLAVOR.load(core::sync::atomic::Ordering::SeqCst) == 1 { RuntimeFlavor::CurrentThread } else { RuntimeFlavor::MultiThread }
+        }
         pub fn current() -> Handle {
             if !vexec::active() {
                 panic!("there is no reactor running, must be called from the context of a Tokio 1.x runtime");
